@@ -42,6 +42,8 @@ func runC16(r *oblig.Report) {
 	r.Analysed["name_rules"] = nameRules
 	e9pos.OffendingTokens(c.P, r, "R9.3", notifyingMethods, nameRules)
 	e9pos.MergeErrors(c.P, r, "R9.4")
+	r.Rule("R9.4c", "instance-table", "the merger's line table and the text given to the module parser are the file's contents as given", 2)
+	e9pos.MergeTextVerbatim(c.P, r, "R9.4c")
 	r.Rule("R9.6", "instance-table", "the column of a merge conflict is the first occurrence of the name on its line", 1)
 	e9pos.ColumnIsFirstOccurrence(c.P, r, "R9.6")
 	e9pos.Finders(c.P, r, "R9.5", w.LexerG)
